@@ -526,7 +526,7 @@ func replaySQLHist(args []string) error {
 				db := dbs[st.D]
 				want := wantOf[files[st.D]]
 				usePrep := rng.Intn(2) == 0
-				o, _ := watchdog(8*time.Second, func() error {
+				o, _ := watchdog(20*time.Second, func() error {
 					var got sqlRows
 					if usePrep {
 						stmt, err := db.Prepare(text)
@@ -547,7 +547,7 @@ func replaySQLHist(args []string) error {
 				})
 				outcome = o
 			case "close":
-				o, _ := watchdog(8*time.Second, func() error { return dbs[st.D].Close() })
+				o, _ := watchdog(20*time.Second, func() error { return dbs[st.D].Close() })
 				outcome = o
 			case "reuse":
 			}
@@ -635,7 +635,7 @@ func recordSQLConc(args []string) error {
 				defer wg.Done()
 				d := g % nh
 				for k := 0; k < 3; k++ {
-					o, _ := watchdog(10*time.Second, func() error {
+					o, _ := watchdog(20*time.Second, func() error {
 						got := safeQuery(dbs[d], text)
 						if got.Panic != "" {
 							panic(got.Panic)
@@ -660,7 +660,7 @@ func recordSQLConc(args []string) error {
 			break // goroutines are stuck inside the driver; closing would hang as well
 		}
 		for d := 0; d < nh; d++ {
-			o, _ := watchdog(10*time.Second, func() error { return dbs[d].Close() })
+			o, _ := watchdog(20*time.Second, func() error { return dbs[d].Close() })
 			emit(map[string]any{"ev": "DBClose", "d": d + 1, "out": o})
 		}
 		for f := 1; f <= 2; f++ {
